@@ -452,8 +452,7 @@ class HTTP(BaseComponent):
         fevent = kwargs['fevent']
 
         if isinstance(fevent, response):
-            res = fevent.args[0]
-            req = res.request
+            return self._answer_failed_response(fevent.args[0], (etype, evalue, etraceback))
         elif isinstance(fevent.value.parent.event, request):
             req, res = fevent.value.parent.event.args[:2]
             # already answered by the request_failure handler
@@ -494,14 +493,34 @@ class HTTP(BaseComponent):
 
     @handler('response_failure')
     def _on_response_failure(self, eresponse, error):
-        res = eresponse.args[0]
+        self._answer_failed_response(eresponse.args[0], error)
+
+    def _answer_failed_response(self, res, error):
+        """
+        A response could not be sent. It is answered once (the exception
+        and the failure feedback both end up here) with a bare 500; if not
+        even that can be sent, the connection is closed.
+        """
         req = res.request
 
         # Ignore failed "response" handlers (eg: Loggers or Tools)
-        if res.done:
+        if res.done or getattr(res, '_failed', False):
+            return
+        res._failed = True
+
+        if getattr(res, '_last_resort', False):
+            sock = req.sock
+            res.done = True
+            if sock in self._clients:
+                del self._clients[sock]
+            self._mark_closing(sock)
+            self.fire(close(sock))
             return
 
         res = wrappers.Response(req, self._encoding, 500)
+        # whatever made the response fail is not repeated
+        res.cookie = type(res.cookie)()
+        res._last_resort = True
         self.fire(httperror(req, res, error=error))
 
     @handler('request_complete')
